@@ -191,6 +191,9 @@ def run(tier, seed):
         "sparse multiplications: fp6, fp8, fp9, fp12 (both twist patterns), fp18; compressed squarings/decompression: fp12, fp18",
         "which levels are fields for a prime is decided by the specification (tower events); levels the library's constants do not "
         "make a field (e.g. xi = 4 + u on NIST P-256) are not driven",
+        "where the Frobenius map of a level is itself a recorded finding (levels over fp2 on primes = 2 mod 3; degree 54) fpN_frb is "
+        "driven and keyed, but the operations built on it (conv_cyc/test_cyc and everything fed by them, is_sqr/srt) are not",
+        "decompression is judged on its domain: four zero compressed coefficients are accepted only as the full element 1",
         "ARITH=easy (portable C back-end) only; FPX_QDR/CBC=INTEG, FPX_RDC=LAZYR defaults with every variant called by name",
         "8-bit world (w8p8): p = 7, 13, 19 - the one-digit primes for which fp_prime_set_dense's own search yields towers "
         "up to degree 12; exponentiations of cyclotomic elements are not driven there (they decompress internally and "
